@@ -285,8 +285,112 @@ fn codec_sig(s: &str, import_failed: bool) -> String {
     }
 }
 
+// ---------------------------------------------------------------------------------------------
+// whole workbooks: export → import → evaluate → snapshot equality (oracle only)
+// ---------------------------------------------------------------------------------------------
+
+fn gen_book(ctx: &Ctx, sink: &mut dyn FnMut(String)) {
+    let n = if ctx.tier == Tier::Thorough { 20_000 } else { 400 };
+    for i in 0..n {
+        sink(format!("c24 book {}", ctx.seed.wrapping_mul(1_000_000) + i));
+    }
+}
+
+/// key → fields of one snapshot line
+fn split_line(l: &str) -> (String, Vec<(String, String)>) {
+    let mut it = l.split('\u{1f}');
+    let key = it.next().unwrap_or("").to_string();
+    let fields = it
+        .map(|f| match f.split_once('=') {
+            Some((k, v)) => (k.to_string(), v.to_string()),
+            None => ("value".to_string(), f.to_string()),
+        })
+        .collect();
+    (key, fields)
+}
+
+fn eval_book(req: &str) -> ImplOut {
+    let f: Vec<&str> = req.split(' ').collect();
+    let seed: u64 = f[2].parse().unwrap_or(1);
+    let res = catch_unwind(AssertUnwindSafe(|| {
+        let m = super::bookgen::gen_model(seed, 1);
+        let a = super::bookgen::snapshot(&m);
+        let bytes = match save_xlsx_to_writer(&m, Cursor::new(Vec::new())) {
+            Ok(c) => c.into_inner(),
+            Err(e) => return Err(("c24:export-error".to_string(), format!("{e:?}"))),
+        };
+        let wb = match load_from_xlsx_bytes(&bytes, "book", "en", "UTC") {
+            Ok(wb) => wb,
+            Err(e) => return Err(("c24:exported-file-does-not-import".to_string(), format!("{e:?}"))),
+        };
+        let mut m2 = match Model::from_workbook(wb, "en") {
+            Ok(m) => m,
+            Err(e) => return Err(("c24:exported-file-does-not-load".to_string(), e)),
+        };
+        m2.evaluate();
+        Ok((a, super::bookgen::snapshot(&m2)))
+    }));
+    match res {
+        Err(_) => ImplOut::new("panic".into()).fail("c24:panic", &format!("seed {seed}")),
+        Ok(Err((sig, d))) => ImplOut::new("failed".into()).fail(&sig, &format!("seed {seed}: {d}")),
+        Ok(Ok((a, b))) => {
+            use std::collections::BTreeMap;
+            let ma: BTreeMap<String, Vec<(String, String)>> = a.iter().map(|l| split_line(l)).collect();
+            let mb: BTreeMap<String, Vec<(String, String)>> = b.iter().map(|l| split_line(l)).collect();
+            let mut out = ImplOut::new("done".into());
+            let mut n = 0;
+            let mut seen = std::collections::BTreeSet::new();
+            for (k, fa) in &ma {
+                let aspect = k.split(':').next().unwrap_or("");
+                out = out.tag(aspect);
+                match mb.get(k) {
+                    None => {
+                        n += 1;
+                        let sig = format!("c24:lost:{aspect}:missing");
+                        if seen.insert(sig.clone()) {
+                            out = out.fail(&sig, &format!("seed {seed}: {k} {fa:?} is gone after export+import"));
+                        }
+                    }
+                    Some(fb) => {
+                        for (i, (name, va)) in fa.iter().enumerate() {
+                            let vb = fb.get(i).map(|x| x.1.as_str()).unwrap_or("<none>");
+                            if va != vb {
+                                n += 1;
+                                let sig = format!("c24:lost:{aspect}:{name}");
+                                if seen.insert(sig.clone()) {
+                                    out = out.fail(&sig, &format!("seed {seed}: {k} {name}: {va} became {vb}"));
+                                }
+                            }
+                        }
+                    }
+                }
+            }
+            for (k, fb) in &mb {
+                if !ma.contains_key(k) {
+                    n += 1;
+                    let aspect = k.split(':').next().unwrap_or("");
+                    let sig = format!("c24:lost:{aspect}:extra");
+                    if seen.insert(sig.clone()) {
+                        out = out.fail(&sig, &format!("seed {seed}: {k} {fb:?} appeared after export+import"));
+                    }
+                }
+            }
+            out.ans = if n == 0 { "same".into() } else { format!("diff {n}") };
+            out
+        }
+    }
+}
+
 pub fn suites() -> Vec<Suite> {
     vec![Suite {
+        name: "c24-book",
+        rule: "distinct generated workbooks exported by save_xlsx_to_writer, imported by load_from_xlsx_bytes + Model::from_workbook, evaluated and compared by canonical snapshot",
+        modelled: false,
+        gen: gen_book,
+        eval: eval_book,
+        exhaustive: never,
+    },
+    Suite {
         name: "c24-codec",
         rule: "distinct request lines on which the codec does something (escape/decode output differs from the input, or an end-to-end round trip through a real xlsx file)",
         modelled: true,
